@@ -336,6 +336,53 @@ class Check(Property):
             v.append(f"C12 failing-activation probe raised {type(exc).__name__}: {exc}")
         return v
 
+    def colliding_rules_probe(self):
+        """distinct contexts holding a rule for the same pair of dimensions: for every sequence of up to four activations /
+        deactivations, with a conversion asked after EVERY step (so whatever the chain has built is in place), the answer is
+        that of the most recently enabled active context that has the rule, and an error when none has"""
+        import itertools
+        import pint
+        v = []
+        try:
+            u = regs.fresh("float")
+            speeds = {"c12a": 2.0, "c12b": 5.0}
+            for name, sp in speeds.items():
+                cx = pint.Context(name)
+                cx.add_transformation("[length]", "[time]", lambda ureg, x, sp=sp: x / ureg.Quantity(sp, "m/s"))
+                u.add_context(cx)
+            other = pint.Context("c12c")
+            other.add_transformation("[mass]", "[time]", lambda ureg, x: x / ureg.Quantity(1.0, "kg/s"))
+            u.add_context(other)
+            q = u.Quantity(10.0, "m")
+            for seq in itertools.product(("c12a", "c12b", "c12c", "pop"), repeat=4):
+                stack = []
+                hist = []
+                for op in seq:
+                    if op == "pop":
+                        if not stack:
+                            break
+                        u.disable_contexts(1)
+                        stack.pop()
+                    else:
+                        u.enable_contexts(op)
+                        stack.append(op)
+                    hist.append(op)
+                    owner = next((n for n in reversed(stack) if n in speeds), None)
+                    want = ("ok", 10.0 / speeds[owner]) if owner else ("err", "DimensionalityError")
+                    try:
+                        got = ("ok", round(q.to("s").magnitude, 9))
+                    except Exception as exc:  # noqa: BLE001
+                        got = ("err", type(exc).__name__)
+                    if got != want:
+                        v.append(f"C12 after {hist} (active, oldest first: {stack}) 10 m -> s gives {got}, the stack implies {want}")
+                        break
+                u.disable_contexts()
+                if len(v) >= 4:
+                    break
+        except Exception as exc:  # noqa: BLE001
+            v.append(f"C12 colliding-rules probe raised {type(exc).__name__}: {exc}")
+        return v
+
     def oracle(self, c):
         import pint
         v = []
@@ -343,6 +390,7 @@ class Check(Property):
             self._shared_probe_done = True
             v += self.shared_context_probe()
             v += self.failing_activation_probe()
+            v += self.colliding_rules_probe()
         u = self.runner().u
         logging.disable(logging.CRITICAL)
         added = []
